@@ -61,6 +61,49 @@ def locals_of(fn):
     return {x for x in stored if x not in params and x not in nested_used and x != '_'}
 
 
+class TtoTranspose(ast.NodeTransformer):
+    def visit_Attribute(self, node):
+        self.generic_visit(node)
+        if node.attr == 'T' and isinstance(node.ctx, ast.Load):
+            return ast.Call(func=ast.Attribute(value=node.value, attr='transpose', ctx=ast.Load()),
+                            args=[], keywords=[])
+        return node
+
+
+class SqrtForm(ast.NodeTransformer):
+    def visit_Call(self, node):
+        self.generic_visit(node)
+        if isinstance(node.func, ast.Attribute) and node.func.attr == 'sqrt' and \
+                isinstance(node.func.value, ast.Name) and node.func.value.id == 'np' and \
+                len(node.args) == 1:
+            return ast.BinOp(left=node.args[0], op=ast.Pow(), right=ast.Constant(0.5))
+        return node
+
+    def visit_BinOp(self, node):
+        self.generic_visit(node)
+        if isinstance(node.op, ast.Pow) and isinstance(node.right, ast.Constant) and \
+                node.right.value == 2 and isinstance(node.left, ast.Name):
+            return ast.BinOp(left=node.left, op=ast.Mult(), right=ast.Name(node.left.id, ast.Load()))
+        return node
+
+
+class IfInvert(ast.NodeTransformer):
+    def visit_If(self, node):
+        self.generic_visit(node)
+        if node.orelse and not (len(node.orelse) == 1 and isinstance(node.orelse[0], ast.If)) \
+                and not any(isinstance(x, ast.If) for x in node.body[:0]):
+            t = node.test
+            if isinstance(t, ast.UnaryOp) and isinstance(t.op, ast.Not):
+                nt = t.operand
+            else:
+                nt = ast.UnaryOp(op=ast.Not(), operand=t)
+            return ast.If(test=nt, body=node.orelse, orelse=node.body)
+        return node
+
+
+MODULE_TRANSFORMS = {'transpose': TtoTranspose, 'sqrtform': SqrtForm, 'ifinvert': IfInvert}
+
+
 def transforms():
     out = []
     pk = os.path.join(REPO, 'pyins')
@@ -70,6 +113,8 @@ def transforms():
         src = open(os.path.join(pk, fn)).read()
         tree = ast.parse(src)
         out.append(('unparse:' + fn, fn, None))
+        for k in MODULE_TRANSFORMS:
+            out.append(('%s:%s' % (k, fn), fn, k))
         for node in ast.walk(tree):
             if isinstance(node, ast.FunctionDef):
                 loc = locals_of(node)
@@ -84,7 +129,9 @@ def apply(tr, dst):
     p = os.path.join(dst, 'pyins', fn)
     src = open(p).read()
     tree = ast.parse(src)
-    if target is not None:
+    if isinstance(target, str):
+        tree = ast.fix_missing_locations(MODULE_TRANSFORMS[target]().visit(tree))
+    elif target is not None:
         for node in ast.walk(tree):
             if isinstance(node, ast.FunctionDef) and (node.name, node.lineno) == target:
                 node._root = True
